@@ -4,7 +4,10 @@ Implementation functions driven (real code from $VERIF_REPO/src):
   sr.utils.find_content_items, sr.utils.collect_evidence (+ _create_references),
   sr.EnhancedSR / ComprehensiveSR / Comprehensive3DSR constructors, .content,
   get_evidence, get_evidence_series, X.from_dataset, srread (after save_as),
-  ko.KeyObjectSelection, ko.KeyObjectSelectionDocument, resolve_reference.
+  ko.KeyObjectSelection (+ get_references), ko.KeyObjectSelectionDocument, resolve_reference,
+  ko.KeyObjectSelectionDocument.from_dataset (kind ko_parse), documents whose content is a real
+  TID 1500 MeasurementReport (kind report_doc), sr.ReferencedSegment / ReferencedSegmentationFrame
+  .from_segmentation on synthetic datasets and on real highdicom Segmentations (kind seg_real).
 Model: coq/theories/C15_Model.v; theorems: C15_Props.v.
 
 A case is JSON: content trees are nested lists [vt, tag, rel, ref|None, kids] or
@@ -40,15 +43,20 @@ MODELLED = ('sr.utils.find_content_items / _create_references / collect_evidence
             '(evidence, transfer syntax, verification details, content sequence length, root item checks, '
             'evidence collection, predecessors), EnhancedSR/ComprehensiveSR SCOORD3D rejection, get_evidence, '
             'get_evidence_series, from_dataset class checks, srread dispatch; ko.KeyObjectSelection reference '
-            'items, KeyObjectSelectionDocument.__init__, resolve_reference; sr.content.ReferencedSegment.from_segmentation '
+            'items and get_references, KeyObjectSelectionDocument.__init__, resolve_reference, '
+            'KeyObjectSelectionDocument.from_dataset (class / root rebuild / template 2010 / reference table guards); '
+            'sr.content.ReferencedSegment.from_segmentation '
             'and ReferencedSegmentationFrame.from_segmentation (on an abstraction of the segmentation: per-frame segment '
-            'number + derivation/source sequences + header ReferencedSeriesSequence).  Not modelled: unnamed IMAGE items '
+            'number + derivation/source sequences + header ReferencedSeriesSequence; the abstraction is EXTRACTED by '
+            'abstract_seg from synthetic datasets and from real highdicom Segmentations and both are compared with the '
+            'model).  Not modelled: unnamed IMAGE items '
             '(find_content_items needs ConceptNameCodeSequence), patient/study attribute copying.  _SR.from_dataset '
             'is modelled with its root rebuild (value type, name, children, continuity, template) and the dispatch '
-            'on template 1500 (MeasurementReport vs ContentSequence as the type of .content); the structure of real '
-            'TID 1500 reports is exercised through the template classes (kind tid1500, oracle only).')
+            'on template 1500 (MeasurementReport vs ContentSequence as the type of .content); documents whose content is a '
+            'real TID 1500 MeasurementReport (template classes) are compared with the model on the tree highdicom built '
+            '(kind report_doc); the template getters of parsed reports are exercised by kind tid1500 (oracle only).')
 STRATA = ['find', 'collect', 'collect_err', 'doc', 'doc_err', 'roundtrip', 'from_dataset', 'ko', 'ko_err',
-          'ko_srread', 'segref', 'segframe', 'seg_real', 'tid1500']
+          'ko_srread', 'ko_parse', 'segref', 'segframe', 'seg_real', 'tid1500', 'report_doc']
 NOT_EXECUTED = []
 RULE = ('trees: depth <= 4, fan-out <= 3, 15 value types, children below any value type, references drawn from a '
         'pool of <= 8 instances with repeats; optional attributes of items (document kinds): root and nested container '
@@ -64,7 +72,12 @@ RULE = ('trees: depth <= 4, fan-out <= 3, 15 value types, children below any val
         'segmentation datasets (1-6 frames, 1-3 segments, absent/empty/multiple derivation and source items, source '
         'frame numbers absent / one / several, header fallback variants, non-segmentation class) x by-segment / '
         'by-frames (valid subsets, repeats, foreign-segment frames, out-of-range first or last) x segment given or '
-        'not; plus real highdicom Segmentations of CT series and multi-frame CT (oracle only). non-trivial = at least one '
+        'not; plus real highdicom Segmentations of CT series and multi-frame CT (abstraction extracted, model compared). '
+        'key object documents written, optionally tampered with (SOP class, template identifier, template / evidence / '
+        'content sequence deleted, value type) and parsed by KeyObjectSelectionDocument.from_dataset from the document or '
+        'from dcmread(bytes); get_references x value type (incl. unsupported) x SOP class; report_doc: TID 1500 reports '
+        '(plain / planar / 3-D region groups) x all constructor arguments x evidence all / duplicates / referenced only / '
+        'one referenced instance missing. non-trivial = at least one '
         'reference below depth 1 or >= 2 evidence groups or a refusal; distinct by case hash')
 
 VTS = ['CONTAINER', 'TEXT', 'CODE', 'NUM', 'IMAGE', 'COMPOSITE', 'SCOORD', 'SCOORD3D', 'UIDREF',
@@ -80,7 +93,8 @@ OPT_KEYS = {
     12: 'TCOORD referenced_date_time [seconds..]', 13: 'WAVEFORM referenced_waveform_channels [w, c, ..]',
 }
 TCOORD, WAVEFORM = 13, 14
-RELS = [None, 'CONTAINS', 'HAS PROPERTIES', 'INFERRED FROM', 'SELECTED FROM']
+RELS = [None, 'CONTAINS', 'HAS PROPERTIES', 'INFERRED FROM', 'SELECTED FROM',
+        'HAS OBS CONTEXT', 'HAS ACQ CONTEXT', 'HAS CONCEPT MOD']   # generated trees use 0..4; reports the rest too
 CLASSES = ['1.2.840.10008.5.1.4.1.1.2', '1.2.840.10008.5.1.4.1.1.4', '1.2.840.10008.5.1.4.1.1.88.33',
            '1.2.840.10008.5.1.4.1.1.66.4']
 SR_CLASSES = ['EnhancedSR', 'ComprehensiveSR', 'Comprehensive3DSR']
@@ -601,6 +615,52 @@ def gen_tid1500(rng):
             'copy': rng.random() < 0.6}
 
 
+KO_TAMPER = ['none', 'class', 'template', 'no_template', 'no_evidence_seq', 'value_type', 'no_content_seq']
+
+
+def gen_ko_parse(rng):
+    """a valid key object document, written, (tampered with,) parsed by KeyObjectSelectionDocument.from_dataset"""
+    c = gen_ko(rng)
+    c['kind'] = 'ko_parse'
+    c['tamper'] = rng.choice([0, 0, 0, 0, 0, 1, 2, 3, 4, 5, 6])
+    c['via'] = rng.choice(['document', 'dcmread', 'dcmread'])
+    c['vf'] = rng.choice([None, None, IMAGE, COMPOSITE, WAVEFORM, 1, 0])
+    c['cf'] = rng.choice([None, None, rng.randrange(len(CLASSES))] + [r[1] for r in c['refs'][:1]])
+    return c
+
+
+def report_refs(rp):
+    """instance numbers a report case references (from the case description, not from highdicom)"""
+    return ({rp['pool'][g['source']][0] for g in rp['groups'] if g['type'] != 'planar3d'} |
+            {rp['pool'][m['image']][0] for g in rp['groups'] for m in g['meas'] if m['image'] is not None})
+
+
+def gen_report_doc(rng):
+    """a document whose content is a real TID 1500 MeasurementReport (template classes), with the whole set of
+    constructor arguments; written and parsed; compared with the model on the tree highdicom built"""
+    t = gen_tid1500(rng)
+    rp = {k: t[k] for k in ('groups', 'pool', 'observer', 'title')}
+    for g in rp['groups']:
+        if g['type'] == 'planar' and rng.random() < 0.3:
+            g['type'] = 'planar3d'                 # region given in 3-D patient coordinates (SCOORD3D below depth 2)
+    ev = [list(r) for r in t['evidence']]
+    mode = rng.choice(['all', 'all', 'all', 'dups', 'referenced', 'missing'])
+    ref = report_refs(rp)
+    if not ref:
+        mode = 'all'
+    if mode == 'referenced':
+        ev = [r for r in ev if r[0] in ref]
+    elif mode == 'missing':
+        drop = rng.choice(sorted(ref))
+        ev = [r for r in ev if r[0] != drop] or [[99, 0, 1, 11]]
+    elif mode == 'dups':
+        ev.insert(rng.randrange(len(ev) + 1), list(rng.choice(ev)))
+    c = dict(gen_doc_args(rng), kind='report_doc', report=rp, evidence=ev, mode=mode)
+    if any(g['type'] == 'planar3d' for g in rp['groups']) and rng.random() < 0.5:
+        c['cls'] = 2
+    return c
+
+
 def gen_cases(rng, tier):
     n = {'quick': 1, 'thorough': 20, 'search': 8}[tier]
     cases = []
@@ -631,6 +691,8 @@ def gen_cases(rng, tier):
         c = gen_ko(rng)
         c['kind'] = 'ko_srread'
         cases.append(c)
+    for _ in range(44 * n):
+        cases.append(gen_ko_parse(rng))
     for _ in range(150 * n):
         cases.append(gen_segref(rng))
     for _ in range(170 * n):
@@ -639,6 +701,8 @@ def gen_cases(rng, tier):
         cases.append(gen_seg_real(rng))
     for _ in range(40 * n):
         cases.append(gen_tid1500(rng))
+    for _ in range(30 * n):
+        cases.append(gen_report_doc(rng))
     return cases
 
 
@@ -797,6 +861,13 @@ def opts_from(ds):
     return o
 
 
+def _tag(v):
+    """number of a concept-name code value: itself when numeric (generated trees, DCM / SCT codes), else a
+    fixed number derived from its characters (e.g. LOINC '18748-4', NCIt 'C67447' in template-built reports)"""
+    v = str(v)
+    return int(v) if v.isdigit() else 10 ** 9 + int.from_bytes(v.encode(), 'big') % 10 ** 9
+
+
 def tree_of(ds):
     """Canonical tree of a dataset that is (or carries at top level) a content item."""
     rt = ds.get('RelationshipType', None)
@@ -804,7 +875,7 @@ def tree_of(ds):
     if 'ReferencedSOPSequence' in ds:
         r = ds.ReferencedSOPSequence[0]
         ref = [num_of(r.ReferencedSOPInstanceUID), CLASSES.index(str(r.ReferencedSOPClassUID))]
-    return [VTS.index(ds.ValueType), int(ds.ConceptNameCodeSequence[0].CodeValue), RELS.index(rt), ref,
+    return [VTS.index(ds.ValueType), _tag(ds.ConceptNameCodeSequence[0].CodeValue), RELS.index(rt), ref,
             [tree_of(k) for k in ds.get('ContentSequence', [])], opts_from(ds)]
 
 
@@ -942,12 +1013,19 @@ TS = {'explicit': '1.2.840.10008.1.2.1', 'implicit': '1.2.840.10008.1.2', 'jpeg'
 def make_doc(c):
     """Returns (document, snapshot of the root content item taken before the call, the root given)."""
     from highdicom import sr
-    root = build_item(c['tree'], root=True)
+    report = None
+    if 'report' in c:
+        report = build_report(c['report'])         # a MeasurementReport (content sequence with one root item)
+        root = report[0]
+    else:
+        root = build_item(c['tree'], root=True)
     if not c['root_cs'] and 'ContentSequence' in root:
         del root.ContentSequence
     snapshot = copy.deepcopy(root)
     content = root
-    if c['as_seq']:
+    if c['as_seq'] and report is not None:
+        content = report
+    elif c['as_seq']:
         from pydicom.sequence import Sequence
         content = Sequence([copy.deepcopy(root) if i else root for i in range(c.get('seq_n', 1))])
     ev = [evidence_ds(r) for r in c['evidence']]
@@ -1060,6 +1138,51 @@ def obs_segframe(r, **kw):
             sn[0] if sn is not None and len(sn) == 1 else str(sn), _src_obs(r.source_image_for_segmentation, **kw)]
 
 
+def abstract_seg(ds, num=num_of, cls=lambda x: CLASSES.index(str(x)), series=num_of):
+    """what the two from_segmentation functions read of a segmentation dataset, in the form of gen_seg
+    (the inverse of build_seg_ds; also applied to real highdicom Segmentations)"""
+    def frames_of(x):
+        if 'ReferencedFrameNumber' not in x:
+            return None
+        return [int(v) for v in _ints(x.ReferencedFrameNumber)]
+    frames = []
+    for f in ds.PerFrameFunctionalGroupsSequence:
+        drv = None
+        if 'DerivationImageSequence' in f:
+            drv = [None if 'SourceImageSequence' not in d else
+                   [[num(x.ReferencedSOPInstanceUID), cls(x.ReferencedSOPClassUID), frames_of(x)]
+                    for x in d.SourceImageSequence] for d in f.DerivationImageSequence]
+        frames.append([int(f.SegmentIdentificationSequence[0].ReferencedSegmentNumber), drv])
+    rs = None
+    if 'ReferencedSeriesSequence' in ds:
+        r = ds.ReferencedSeriesSequence[0]
+        rs = [None if 'ReferencedInstanceSequence' not in r else
+              [[num(x.ReferencedSOPInstanceUID), cls(x.ReferencedSOPClassUID)] for x in r.ReferencedInstanceSequence],
+              None if 'SeriesInstanceUID' not in r else series(r.SeriesInstanceUID)]
+    return {'cls': 'seg' if str(ds.SOPClassUID) in (SEG_UIDS['seg'], SEG_UIDS['labelmap']) else 'ct',
+            'nframes': int(ds.NumberOfFrames), 'tiled': 'TotalPixelMatrixRows' in ds, 'frames': frames, 'refseries': rs}
+
+
+def seg_norm(g):
+    return dict(g, cls='seg' if g['cls'] != 'ct' else 'ct')
+
+
+def seg_real_parts(c):
+    """(segmentation, keyword arguments numbering the source instances, frame table, frames picked, abstraction)"""
+    seg, suids = build_real_seg(c)
+    table = []
+    for f in seg.PerFrameFunctionalGroupsSequence:
+        s0 = f.DerivationImageSequence[0].SourceImageSequence[0]
+        fr = s0.get('ReferencedFrameNumber')
+        table.append([int(f.SegmentIdentificationSequence[0].ReferencedSegmentNumber),
+                      suids.index(str(s0.ReferencedSOPInstanceUID)), None if fr is None else int(fr)])
+    of = [i + 1 for i, t in enumerate(table) if t[0] == c['sn']]
+    pick = of[:max(1, int(c['pick'] * len(of) + 0.5))] if of else [1]
+    kw = dict(num=lambda u: suids.index(str(u)), cls=lambda x: 0)
+    g = abstract_seg(seg, series=lambda u: 0, **kw)
+    return seg, kw, table, pick, g
+
+
 def build_real_seg(c):
     """(segmentation, source uid list, frame table [(segment, source index, source frame|None)])"""
     import numpy as np
@@ -1116,7 +1239,12 @@ def build_report(c):
         if g['session']:
             kw['session'] = f's{i}'
         u, cl = pool[g['source']][:2]
-        if g['type'] == 'planar':
+        if g['type'] == 'planar3d':
+            import numpy as np
+            region = sr.ImageRegion3D('POLYLINE', np.array([[1.0, 1.0, 2.0], [4.0, 1.0, 2.0], [4.0, 5.0, 2.0]]),
+                                      frame_of_reference_uid=PFX + '9.1')
+            groups.append(sr.PlanarROIMeasurementsAndQualitativeEvaluations(referenced_region=region, **kw))
+        elif g['type'] == 'planar':
             import numpy as np
             region = sr.ImageRegion('POLYLINE', np.array([[1.0, 1.0], [4.0, 1.0], [4.0, 5.0], [1.0, 1.0]]),
                                     source_image=sr.SourceImageForRegion(CLASSES[cl], uid_of(u)),
@@ -1243,7 +1371,7 @@ def run_impl(c):
     if k in ('doc', 'doc_err'):
         r = catch(lambda: make_doc(c))
         return r if isinstance(r, Err) else observe_built(*r)
-    if k == 'roundtrip':
+    if k in ('roundtrip', 'report_doc'):
         r = catch(lambda: make_doc(c))
         if isinstance(r, Err):
             return r
@@ -1290,24 +1418,19 @@ def run_impl(c):
         return run_tid1500(c)
     if k == 'segref':
         ds = build_seg_ds(c['seg'])
+        if abstract_seg(ds) != seg_norm(c['seg']):
+            return 'harness: the abstraction read back from the synthetic dataset differs from the case'
         r = catch(lambda: sr.ReferencedSegment.from_segmentation(ds, segment_number=c['sn'], frame_numbers=c['fns']))
         return r if isinstance(r, Err) else obs_segref(r)
     if k == 'segframe':
         ds = build_seg_ds(c['seg'])
+        if abstract_seg(ds) != seg_norm(c['seg']):
+            return 'harness: the abstraction read back from the synthetic dataset differs from the case'
         r = catch(lambda: sr.ReferencedSegmentationFrame.from_segmentation(
             ds, frame_number=c['fa'], segment_number=c['sn']))
         return r if isinstance(r, Err) else obs_segframe(r)
     if k == 'seg_real':
-        seg, suids = build_real_seg(c)
-        table = []
-        for f in seg.PerFrameFunctionalGroupsSequence:
-            s0 = f.DerivationImageSequence[0].SourceImageSequence[0]
-            fr = s0.get('ReferencedFrameNumber')
-            table.append([int(f.SegmentIdentificationSequence[0].ReferencedSegmentNumber),
-                          suids.index(str(s0.ReferencedSOPInstanceUID)), None if fr is None else int(fr)])
-        of = [i + 1 for i, t in enumerate(table) if t[0] == c['sn']]
-        pick = of[:max(1, int(c['pick'] * len(of) + 0.5))] if of else [1]
-        kw = dict(num=lambda u: suids.index(str(u)), cls=lambda x: 0)
+        seg, kw, table, pick, _ = seg_real_parts(c)
         api = c['api']
         if api == 'segment':
             r = catch(lambda: sr.ReferencedSegment.from_segmentation(seg, segment_number=c['sn']))
@@ -1326,7 +1449,7 @@ def run_impl(c):
             return 'reference does not name the segmentation instance'
         px = seg.pixel_array.reshape(len(table), -1).any(axis=1).tolist()
         return [table, pick, o, px]
-    if k in ('ko', 'ko_err', 'ko_srread'):
+    if k in ('ko', 'ko_err', 'ko_srread', 'ko_parse'):
         from highdicom import ko
 
         def f():
@@ -1356,6 +1479,50 @@ def run_impl(c):
                 return sr.srread(bio)
             back = catch(g)
             return back if isinstance(back, Err) else SR_CLASSES.index(type(back).__name__)
+        if k == 'ko_parse':
+            import pydicom
+            if c['via'] == 'dcmread':
+                bio = io.BytesIO()
+                doc.save_as(bio)
+                bio.seek(0)
+                given = pydicom.dcmread(bio)
+            else:
+                given = copy.deepcopy(doc)
+            t = KO_TAMPER[c['tamper']]
+            if t == 'class':
+                given.SOPClassUID = SR_UIDS[1]
+            elif t == 'template':
+                given.ContentTemplateSequence[0].TemplateIdentifier = '2000'
+            elif t == 'no_template':
+                del given.ContentTemplateSequence
+            elif t == 'no_evidence_seq':
+                del given.CurrentRequestedProcedureEvidenceSequence
+            elif t == 'value_type':
+                given.ValueType = 'TEXT'
+            elif t == 'no_content_seq':
+                del given.ContentSequence
+            before = copy.deepcopy(given)
+            back = catch(lambda: ko.KeyObjectSelectionDocument.from_dataset(given))
+            if isinstance(back, Err):
+                return back
+            if given != before:
+                return 'KeyObjectSelectionDocument.from_dataset changed the dataset it was given'
+            if type(back).__name__ != 'KeyObjectSelectionDocument' or type(back.content).__name__ != 'KeyObjectSelection':
+                return f'parsed object is a {type(back).__name__} with a {type(back.content).__name__}'
+            tree = tree_of(back.content[0])
+            if tree_of(back) != tree:
+                return 'top-level content attributes of the parsed document differ from .content'
+            if not same(back.content[0], doc.content[0]):
+                return f'parsed content differs from the content written: {ds_diff(back.content[0], doc.content[0])}'
+            res = []
+            for u in c['queries']:
+                r = catch(lambda: back.resolve_reference(uid_of(u)))
+                res.append(r if isinstance(r, Err) else [num_of(x) for x in r])
+            got = catch(lambda: [tree_of(x) for x in back.content.get_references(
+                value_type=None if c['vf'] is None else VTS[c['vf']],
+                sop_class_uid=None if c['cf'] is None else CLASSES[c['cf']])])
+            return [tree, refs_of(back.get('CurrentRequestedProcedureEvidenceSequence')),
+                    refs_of(back.get('PertinentOtherEvidenceSequence')), res, got]
         tree = tree_of(doc.content[0])
         if tree_of(doc) != tree:
             tree = 'top-level content attributes of the document differ from .content'
@@ -1442,6 +1609,10 @@ def coq_term(c):
         return f"(run_doc {COQ_CLASSES[c['cls']]} {coq_args(c)})"
     if k == 'roundtrip':
         return f"(run_roundtrip {COQ_CLASSES[c['cls']]} {coq_args(c)})"
+    if k == 'report_doc':
+        # the model is run on the tree highdicom's template classes built (the dataset handed to the constructor)
+        c2 = dict(c, tree=tree_of(build_report(c['report'])[0]))
+        return f"(run_roundtrip {COQ_CLASSES[c['cls']]} {coq_args(c2)})"
     if k == 'from_dataset':
         return f"(run_from_dataset {COQ_CLASSES[c['cls']]} {COQ_CLASSES[c['target']]} {coq_args(c)})"
     if k == 'segref':
@@ -1451,7 +1622,18 @@ def coq_term(c):
         fa = c['fa']
         a = 'FNone' if fa is None else (f'(FInt {zlit(fa)})' if isinstance(fa, int) else f'(FList {coq_zl(fa)})')
         return f"(run_segframe {coq_seg(c['seg'])} {a} {coq_optz(c['sn'])})"
-    if k in ('seg_real', 'tid1500'):
+    if k == 'seg_real':
+        # the model is run on the abstraction EXTRACTED from the real Segmentation object
+        _, _, table, pick, g = seg_real_parts(c)
+        api = c['api']
+        if api in ('segment', 'segment_frames'):
+            fns = 'None' if api == 'segment' else f'(Some {coq_zl(pick)})'
+            run = f"(run_segref_real {coq_seg(g)} {zlit(c['sn'])} {fns})"
+        else:
+            run = f"(run_segframe_real {coq_seg(g)} (FInt {zlit(pick[0])}) {coq_optz(c['sn'] if api == 'frame_sn' else None)})"
+        px = [True] * len(table)     # run_impl reports a frame without pixels through the oracle
+        return f"(VL [{common.to_val(table)}; {common.to_val(pick)}; {run}; {common.to_val(px)}])"
+    if k == 'tid1500':
         return None
     refs = '[' + '; '.join(f'({zlit(u)}, {zlit(cl)}, {coq_b(img)})' for u, cl, img in c['refs']) + ']'
     if k in ('ko', 'ko_err'):
@@ -1460,6 +1642,11 @@ def coq_term(c):
                 f"{refs} {qs})")
     if k == 'ko_srread':
         return f"(run_ko_srread {coq_evd(c['evidence'])} 113000 {refs})"
+    if k == 'ko_parse':
+        qs = '[' + '; '.join(zlit(u) for u in c['queries']) + ']'
+        vf = 'None' if c['vf'] is None else f"(Some {COQ_VT[c['vf']]})"
+        return (f"(run_ko_parse {coq_evd(c['evidence'])} 113000 {coq_optz(c['descr'])} {refs} {zlit(c['tamper'])} "
+                f"{qs} {vf} {coq_optz(c['cf'])})")
     raise ValueError(k)
 
 
@@ -1551,15 +1738,17 @@ def doc_expect_error(c):
     return None
 
 
-def check_doc_obs(c, obs, parsed=False):
+def check_doc_obs(c, obs, parsed=False, ref=None):
     cls, tree, cur, oth, pred, flags, ge, gec, ges, gesc = obs
     if isinstance(tree, str):
         return tree
     if cls != c['cls']:
         return f"document has SOP class {cls}, requested {c['cls']}"
-    if tree != canon(c['tree']):
-        return f'content tree of the document differs from the tree given: {tree_diff(tree, canon(c["tree"]))}'
-    m = check_partition(c['evidence'], referenced(c['tree']), cur, oth, c['record'])
+    if ref is None:
+        if tree != canon(c['tree']):
+            return f'content tree of the document differs from the tree given: {tree_diff(tree, canon(c["tree"]))}'
+        ref = referenced(c['tree'])
+    m = check_partition(c['evidence'], ref, cur, oth, c['record'])
     if m:
         return m
     want = [list(t) for t in _flat(cur)]
@@ -1782,8 +1971,76 @@ def oracle_tid1500(c, out):
     return None
 
 
+def oracle_report_doc(c, out):
+    rp = c['report']
+    ref = report_refs(rp)
+    why = None
+    if not ref <= {r[0] for r in c['evidence']}:
+        why = 'reference without supplied evidence'
+    elif c['cls'] != 2 and any(g['type'] == 'planar3d' for g in rp['groups']):
+        why = '3D coordinates in a class that cannot hold them'
+    if isinstance(out, str):
+        return out
+    if why is not None:
+        return None if isinstance(out, Err) else f'document accepted although: {why}'
+    if isinstance(out, Err):
+        return f'valid measurement report document refused: {out}'
+    if out[0] != c['cls']:
+        return f'srread returned class {out[0]} for a class {c["cls"]} document'
+    is_report, obs = out[1]
+    if not is_report:
+        return '.content of the parsed document is not a MeasurementReport'
+    tree = obs[1]
+    if not isinstance(tree, str):
+        # what the case describes must be in the tree that was read back (names / qualifiers of the measurements)
+        nums = sorted([_tag(M_NAMES[m['name']][0]), -1 if m['qualifier'] is None else int(M_QUAL[m['qualifier']][0])]
+                      for g in rp['groups'] for m in g['meas'])
+        got = sorted([x[1], (opt_get(x, 3) or [-1])[0]] for x, _ in walk(tree) if x[0] == 3)
+        if got != nums:
+            return f'numeric items (name, qualifier) of the parsed tree {got}, the case describes {nums}'
+        if {x[3][0] for x, _ in walk(tree) if x[0] in (IMAGE, COMPOSITE)} != ref:
+            return 'instances referenced by the parsed tree differ from the ones the case describes'
+    return check_doc_obs(c, obs, ref=ref)
+
+
+def oracle_ko_parse(c, out):
+    if isinstance(out, str):
+        return out
+    if c['tamper'] != 0:
+        return None if isinstance(out, Err) else f"dataset tampered with ({KO_TAMPER[c['tamper']]}) parsed as a key object document"
+    if isinstance(out, Err):
+        return f'written key object document cannot be parsed: {out}'
+    tree, cur, oth, res, got = out
+    ref = {r[0] for r in c['refs']}
+    first = _first(c['evidence'])
+    want_kids = ([[1, 113012, 1, None, [], []]] if c['descr'] is not None else []) + [
+        [IMAGE if img else COMPOSITE, 260753009, 1, [u, cl], [], []] for u, cl, img in c['refs']]
+    if tree != [0, 113000, 0, None, want_kids, [[1, [2010]]]]:
+        return f'parsed key object content {tree}'
+    m = check_partition(c['evidence'], ref, cur, oth, record=False, what='parsed KO ')
+    if m:
+        return m
+    for u, r in zip(c['queries'], res):
+        if u in ref:
+            if r != [first[u][0], first[u][1], u]:
+                return f'parsed document: resolve_reference({u}) = {r}, supplied under {first[u][:2]}'
+        elif not isinstance(r, Err):
+            return f'parsed document: resolve_reference({u}) of an unreferenced instance = {r}'
+    if c['vf'] is not None and c['vf'] not in (IMAGE, COMPOSITE, WAVEFORM):
+        return None if isinstance(got, Err) else f"get_references(value_type={VTS[c['vf']]}) = {got}"
+    want = [x for x in want_kids if x[0] in (IMAGE, COMPOSITE) and (c['vf'] is None or x[0] == c['vf'])
+            and (c['cf'] is None or x[3][1] == c['cf'])]
+    if got != want:
+        return f"get_references({c['vf']}, {c['cf']}) lists {got}, selected objects matching: {want}"
+    return None
+
+
 def oracle(c, out):
     k = c['kind']
+    if k == 'report_doc':
+        return oracle_report_doc(c, out)
+    if k == 'ko_parse':
+        return oracle_ko_parse(c, out)
     if k == 'segref':
         return oracle_segref(c, out)
     if k == 'segframe':
@@ -1876,7 +2133,7 @@ def nontrivial(c, out):
         return c['seg']['nframes'] > 1
     if k == 'seg_real':
         return len(out[0]) > 1
-    if k == 'tid1500':
+    if k in ('tid1500', 'report_doc', 'ko_parse'):
         return True
     if k == 'find':
         return len(out) > 0 and any(d > 1 for _, d in walk(c['tree']))
@@ -1887,6 +2144,15 @@ def nontrivial(c, out):
 
 
 def shrink(c):
+    if 'report' in c:
+        rp = c['report']
+        for i in range(len(rp['groups'])):
+            if len(rp['groups']) > 1:
+                yield dict(c, report=dict(rp, groups=rp['groups'][:i] + rp['groups'][i + 1:]))
+            g = rp['groups'][i]
+            for j in range(len(g['meas'])):
+                yield dict(c, report=dict(rp, groups=rp['groups'][:i] + [dict(g, meas=g['meas'][:j] + g['meas'][j + 1:])] +
+                                          rp['groups'][i + 1:]))
     if 'tree' in c:
         def variants(t):
             rest = t[5:]
